@@ -67,6 +67,7 @@ structure St where
   defs : List (Nat × Vertex) := []
   books : List (Nat × Book) := []
   desynced : List Nat := []
+  looseE : List Nat := []   -- nodes whose load failed: partially linked edges depend on map iteration order
   stats : Stats := {}
   skipped : Nat := 0
 
@@ -93,6 +94,25 @@ def tipOrders (b : Book) (hintFirst : List Hash) : List (List Hash) :=
   let first := hintFirst.filter ls.contains
   let rest := ls.filter fun h => !hintFirst.contains h
   [first ++ rest, first ++ rest.reverse, rest ++ first, ls, ls.reverse]
+
+/-- The observed stream is, for some tip order, each tip followed by its not yet streamed ancestors
+(in any sibling order — the walker's order among siblings is Go map order). -/
+def streamMatches (b : Book) (order : List Hash) (ns : List Nat) : Bool :=
+  let rec go (tips : List Hash) (rest : List Nat) (visited : List Hash) (fuel : Nat) : Bool :=
+    match fuel, tips with
+    | 0, _ => false
+    | _, [] => rest.isEmpty
+    | fuel + 1, l :: ts =>
+      match rest with
+      | [] => false
+      | x :: rest' =>
+        if x != l then false else
+        let anc := (b.ancestors l).filter (!visited.contains ·)
+        let seg := rest'.take anc.length
+        if seg.length == anc.length && seg.all anc.contains && anc.all seg.contains then
+          go ts (rest'.drop anc.length) (visited ++ anc) fuel
+        else false
+  go order ns [] (order.length + 1)
 
 def parseTrx (ts : List String) : Option Trx :=
   match ts with
@@ -162,7 +182,7 @@ def candidates (s : St) (b : Book) (op : List String) (res : String) (obs : List
   | ["STREAM", _, names] => do
     let ns ← natList names
     -- any tip order: the stream must be some `streamDag b order`
-    let ok := (tipOrders b []).any fun o => (b.streamDag (o.filterMap b.getVertex)).map (·.hash) == ns
+    let ok := (tipOrders b []).any fun o => streamMatches b o ns
     some ("stream", [(b, if ok then "ok" else "stream-order-not-reproducible")])
   | ["LOAD", _, names] => do
     let ns ← natList names
@@ -191,7 +211,7 @@ def candidates (s : St) (b : Book) (op : List String) (res : String) (obs : List
 def step (s : St) (lineNo : Nat) (line : String) : St × Option String :=
   let bump (s : St) := { s with stats := { s.stats with lines := s.stats.lines + 1 } }
   match toks line with
-  | ["RESET"] => ({ s with defs := [], books := [], desynced := [] }, none)
+  | ["RESET"] => ({ s with defs := [], books := [], desynced := [], looseE := [] }, none)
   | ["CCT", c, d, r] =>
     match u64? c, u64? d with
     | some c, some d =>
@@ -250,6 +270,7 @@ def step (s : St) (lineNo : Nat) (line : String) : St × Option String :=
       | none => (bump s, some s!"unknown node {node}")
       | some b =>
         let obs := parseSnap snapS
+        let obs := if s.looseE.contains node then obs.filter (·.1 != "E") else obs
         match candidates s b op res.trimAscii.toString obs with
         | none => (bump s, some "unparsable op")
         | some (label, cands) =>
@@ -257,7 +278,9 @@ def step (s : St) (lineNo : Nat) (line : String) : St × Option String :=
           let s := { s with stats := s.stats.hit label }
           let res := res.trimAscii.toString
           match cands.find? (fun c => c.2 == res && snapMatches c.1 obs) with
-          | some (b', _) => (s.setBook node b', none)
+          | some (b', _) =>
+            let s := if op.head? == some "LOAD" && res != "ok" then { s with looseE := node :: s.looseE } else s
+            (s.setBook node b', none)
           | none =>
             let detail := match cands.find? (fun c => c.2 == res) with
               | some (b', _) => "result ok, snapshot differs: " ++ snapDiff b' obs
